@@ -286,8 +286,19 @@ Definition front (w : world) (h name : N) (pos : option N) : bool :=
   | _ => false
   end.
 
+(* K04-front for removal: the first item of an element of a named type is removed and a SHORT-NAME element that was
+   the second item becomes first (the element silently becomes identifiable, without index entry) *)
+Definition remove_front (w : world) (h : id) (is_sub : id -> bool) : bool :=
+  named_node w h &&
+  match w_nodes w h with
+  | Some n => match n_content n with CElem c :: CElem s :: _ => is_sub c && is_short_node w s | _ => false end
+  | None => false
+  end.
+
 Definition Known04 (w : world) (o : op) : bool :=
   match o with
+  | OpRemove h sub => remove_front w h (N.eqb sub)
+  | OpRemoveKind h name => remove_front w h (fun c => nm_of w c =? name)
   | OpCreateSub h name | OpGetOrCreate h name | OpCreateNamed h name _ | OpGetOrCreateNamed h name _ => front w h name None
   | OpCreateSubAt h name pos | OpCreateNamedAt h name _ pos => front w h name (Some pos)
   | OpCopy h other => front w h (nm_of w other) None
@@ -310,7 +321,7 @@ Definition Known04 (w : world) (o : op) : bool :=
    OpSetCData is pending only where it re-keys: on a SHORT-NAME element that already has text. *)
 Definition Pending04 (w : world) (o : op) : bool :=
   match o with
-  | OpCopy _ _ | OpCopyAt _ _ _ | OpMove _ _ | OpMoveAt _ _ _ | OpRemove _ _ | OpRemoveKind _ _
+  | OpCopy _ _ | OpCopyAt _ _ _ | OpMove _ _ | OpMoveAt _ _ _
   | OpSetItemName _ _ | OpRemoveFile _ _ | OpRemoveFromFile _ _ => true
   | OpSetCData h _ =>
     match w_nodes w h with
